@@ -267,9 +267,34 @@ fn shape(code: usize, site: &Site) -> Option<Object> {
         22 => Object::Name(vec![]),
         23 => Object::Real(-1e30),
         24 => arr(vec![arr(vec![]), d(vec![]), Object::Null, r(site.obj.max(1))]),
+        k if k >= 200 => {
+            // whole-stream replacement: plain content from the operator/operand menu
+            let menu = content_menu();
+            Object::Stream(Stream::new(Dictionary::new(), menu[(k - 200) % menu.len()].clone()))
+        }
         k if k >= 100 => r((k - 100) as u32),
         _ => return None,
     })
+}
+
+/// Content streams in which every text / graphics operator the queries interpret appears with
+/// every small operand list (too few, too many, wrong kinds), after a font was selected.
+fn content_menu() -> Vec<Vec<u8>> {
+    let ops = ["Tj", "TJ", "'", "\"", "Tf", "Td", "TD", "Tm", "T*", "Tc", "Tw", "Tz", "TL", "Ts", "Tr", "BT", "ET", "Do", "cm", "q", "Q", "BI", "ID", "EI", "BDC", "BMC", "EMC", "gs", "sh"];
+    let operands = ["", "(s)", "1", "1 2", "1 2 (s)", "(a) (b) (c)", "[(a) -300 (b)]", "[]", "[[(x)]]", "/F1", "/F1 12", "/Nope 12", "<00010002>", "<< /A 1 >>", "null", "true", "1 2 3 4 5 6 7"];
+    let mut v = vec![];
+    for prefix in ["BT /F1 12 Tf ", "BT /F2 12 Tf ", "", "BT "] {
+        for op in ops {
+            for a in operands {
+                v.push(format!("{}{} {} ET", prefix, a, op).into_bytes());
+            }
+        }
+    }
+    v.push(b"BT /F1 12 Tf (unterminated".to_vec());
+    v.push(b"BI /W 1 /H 1 /CS /G /BPC 8 ID x EI".to_vec());
+    v.push(b"BI /W 9223372036854775807 /H 2 /CS /RGB /BPC 8 ID x EI".to_vec());
+    v.push(vec![0xff; 64]);
+    v
 }
 
 fn apply(doc: &mut Document, site: &Site, code: usize) -> bool {
@@ -576,6 +601,7 @@ fn shape_label(code: usize) -> String {
         22 => "name-empty".into(),
         23 => "real-huge-negative".into(),
         24 => "[[] <<>> null self]".into(),
+        k if k >= 200 => format!("stream-content:{}", String::from_utf8_lossy(&content_menu()[(k - 200) % content_menu().len()])),
         k => format!("ref-to-obj{}", k - 100),
     }
 }
@@ -695,6 +721,12 @@ fn main() {
         }
         for k in &obj_ids {
             mk(vec![(si, 100 + *k as usize)], &mut cases);
+        }
+        // whole content / CMap / image streams replaced by every entry of the operator-operand menu
+        if _s.path.is_empty() && !_s.insert && matches!(skel.objects.get(&(_s.obj, 0)), Some(Object::Stream(_))) {
+            for j in 0..content_menu().len() {
+                mk(vec![(si, 200 + j)], &mut cases);
+            }
         }
     }
     let singles = cases.len();
